@@ -9,6 +9,10 @@ declared scratch masks.
 in : {"jobs": [{"fjm", "w", "engine": "fast"|"native"|"featured", "cases": [
          {"id", "patch": [[word, value]], "expect": [[word, value]], "scratch": [[lo, hi, mask]], "watchdog": s}]}]}
 out: [[{"id", "cause", "ops", "out": [bytes], "out_bits", "diffs": [[word, got, want]], "ndiffs", "exc"?}]]
+
+ADDED FOR C09 (backwards compatible): a case may carry "input": [bytes] (fed through FixedIO; default empty) and
+"nomem": true (no memory comparison: runs that are specified to end with EOF); every result carries "consumed" =
+the number of input BITS the program read.
 """
 import json
 import os
@@ -26,8 +30,9 @@ from flipjump.interpreter.io_devices.FixedIO import FixedIO  # noqa: E402
 
 
 class PatchDev(FixedIO):
-    def __init__(self, patch):
-        super().__init__(b'')
+    def __init__(self, patch, inp=b''):
+        super().__init__(inp)
+        self.total_input_bits = 8 * len(inp)
         self.patch = patch
         self.memview = None
         self.nbits = 0
@@ -41,6 +46,9 @@ class PatchDev(FixedIO):
     def write_bit(self, bit):
         self.bits |= (1 if bit else 0) << self.nbits
         self.nbits += 1
+
+    def consumed_bits(self):
+        return self.total_input_bits - 8 * len(self.remaining_input) - self.bits_to_read_in_input_byte
 
 
 def _alarm(signum, frame):
@@ -57,7 +65,7 @@ def run_case(job, image, segs, case):
         os.environ['FLIPJUMP_NO_NATIVE'] = '1'
     else:
         assert NATIVE is not None, 'native engine requested without FJVERIF_FJCORE_SO'
-    dev = PatchDev(case['patch'])
+    dev = PatchDev(case['patch'], bytes(case.get('input', [])))
     res = {'id': case.get('id')}
     signal.setitimer(signal.ITIMER_REAL, case.get('watchdog', 20.0))
     try:
@@ -74,9 +82,10 @@ def run_case(job, image, segs, case):
     nfull = dev.nbits // 8
     res['out'] = list(dev.bits.to_bytes(nfull + 1, 'little')[:nfull])
     res['out_bits'] = dev.nbits
+    res['consumed'] = dev.consumed_bits()
     diffs = []
     ndiffs = 0
-    if dev.memview is not None and 'exc' not in res:
+    if dev.memview is not None and 'exc' not in res and not case.get('nomem'):
         want = dict(case['expect'])
         scratch = case.get('scratch', [])
         rd = dev.memview.read_word
